@@ -557,7 +557,8 @@ unsafe fn fill_statx(st: *mut libc::statx, s: &Stat) {
 pub unsafe extern "C" fn statx(dirfd: c_int, path: *const c_char, flags: c_int, mask: c_uint, buf: *mut libc::statx) -> c_int {
     if in_sim() {
         if let Some(p) = sim_path(path) {
-            return match with_world(|w| w.fs.stat(&p)) {
+            let nofollow = flags & libc::AT_SYMLINK_NOFOLLOW != 0;
+            return match with_world(|w| if nofollow { w.fs.lstat(&p) } else { w.fs.stat(&p) }) {
                 Ok(s) => {
                     fill_statx(buf, &s);
                     0
@@ -583,7 +584,8 @@ pub unsafe extern "C" fn statx(dirfd: c_int, path: *const c_char, flags: c_int, 
                 };
             }
             if let Some(p) = sim_path_at(dirfd, path) {
-                return match with_world(|w| w.fs.stat(&p)) {
+                let nofollow = flags & libc::AT_SYMLINK_NOFOLLOW != 0;
+                return match with_world(|w| if nofollow { w.fs.lstat(&p) } else { w.fs.stat(&p) }) {
                     Ok(s) => {
                         fill_statx(buf, &s);
                         0
@@ -604,12 +606,12 @@ pub unsafe extern "C" fn statx(dirfd: c_int, path: *const c_char, flags: c_int, 
 }
 
 macro_rules! path_stat_fn {
-    ($name:ident, $lit:literal) => {
+    ($name:ident, $lit:literal, $follow:literal) => {
         #[no_mangle]
         pub unsafe extern "C" fn $name(path: *const c_char, buf: *mut libc::stat64) -> c_int {
             if in_sim() {
                 if let Some(p) = sim_path(path) {
-                    return match with_world(|w| w.fs.stat(&p)) {
+                    return match with_world(|w| if $follow { w.fs.stat(&p) } else { w.fs.lstat(&p) }) {
                         Ok(s) => {
                             fill_stat64(buf, &s);
                             0
@@ -631,10 +633,10 @@ macro_rules! path_stat_fn {
         }
     };
 }
-path_stat_fn!(stat, "stat");
-path_stat_fn!(stat64, "stat64");
-path_stat_fn!(lstat, "lstat");
-path_stat_fn!(lstat64, "lstat64");
+path_stat_fn!(stat, "stat", true);
+path_stat_fn!(stat64, "stat64", true);
+path_stat_fn!(lstat, "lstat", false);
+path_stat_fn!(lstat64, "lstat64", false);
 
 macro_rules! fd_stat_fn {
     ($name:ident, $lit:literal) => {
@@ -671,7 +673,8 @@ macro_rules! fstatat_fn {
         pub unsafe extern "C" fn $name(dirfd: c_int, path: *const c_char, buf: *mut libc::stat64, flags: c_int) -> c_int {
             if in_sim() {
                 if let Some(p) = sim_path(path) {
-                    return match with_world(|w| w.fs.stat(&p)) {
+                    let nofollow = flags & libc::AT_SYMLINK_NOFOLLOW != 0;
+                    return match with_world(|w| if nofollow { w.fs.lstat(&p) } else { w.fs.stat(&p) }) {
                         Ok(s) => {
                             fill_stat64(buf, &s);
                             0
@@ -688,7 +691,8 @@ macro_rules! fstatat_fn {
                         return fstat64(dirfd, buf);
                     }
                     if let Some(p) = sim_path_at(dirfd, path) {
-                        return match with_world(|w| w.fs.stat(&p)) {
+                        let nofollow = flags & libc::AT_SYMLINK_NOFOLLOW != 0;
+                        return match with_world(|w| if nofollow { w.fs.lstat(&p) } else { w.fs.stat(&p) }) {
                             Ok(s) => {
                                 fill_stat64(buf, &s);
                                 0
@@ -943,6 +947,137 @@ pub unsafe extern "C" fn linkat(fd1: c_int, from: *const c_char, fd2: c_int, to:
     }
 }
 
+unsafe fn raw_target(t: *const c_char) -> Option<String> {
+    if t.is_null() {
+        return None;
+    }
+    let b = CStr::from_ptr(t).to_bytes();
+    Some(match std::str::from_utf8(b) {
+        Ok(s) => s.to_string(),
+        Err(_) => b.iter().map(|c| *c as char).collect(),
+    })
+}
+
+#[no_mangle]
+pub unsafe extern "C" fn symlink(target: *const c_char, linkpath: *const c_char) -> c_int {
+    if in_sim() {
+        if let Some(p) = sim_path(linkpath) {
+            let t = raw_target(target).unwrap_or_default();
+            return ret_unit(with_world(|w| w.fs.symlink(&t, &p)));
+        }
+    }
+    match real!("symlink", unsafe extern "C" fn(*const c_char, *const c_char) -> c_int) {
+        Some(f) => f(target, linkpath),
+        None => {
+            set_errno(libc::ENOSYS);
+            -1
+        }
+    }
+}
+
+#[no_mangle]
+pub unsafe extern "C" fn symlinkat(target: *const c_char, dirfd: c_int, linkpath: *const c_char) -> c_int {
+    if in_sim() {
+        if let Some(p) = sim_path(linkpath).or_else(|| sim_path_at(dirfd, linkpath)) {
+            let t = raw_target(target).unwrap_or_default();
+            return ret_unit(with_world(|w| w.fs.symlink(&t, &p)));
+        }
+        if fake(dirfd) {
+            return unmodelled("symlinkat(relative to simulated dirfd)");
+        }
+    }
+    match real!("symlinkat", unsafe extern "C" fn(*const c_char, c_int, *const c_char) -> c_int) {
+        Some(f) => f(target, dirfd, linkpath),
+        None => {
+            set_errno(libc::ENOSYS);
+            -1
+        }
+    }
+}
+
+unsafe fn copy_link_target(r: Result<String, i32>, buf: *mut c_char, len: size_t) -> ssize_t {
+    match r {
+        Ok(t) => {
+            let bytes = t.into_bytes();
+            let n = bytes.len().min(len);
+            std::ptr::copy_nonoverlapping(bytes.as_ptr(), buf as *mut u8, n);
+            n as ssize_t
+        }
+        Err(e) => {
+            set_errno(e);
+            -1
+        }
+    }
+}
+
+#[no_mangle]
+pub unsafe extern "C" fn readlink(path: *const c_char, buf: *mut c_char, len: size_t) -> ssize_t {
+    if in_sim() {
+        if let Some(p) = sim_path(path) {
+            return copy_link_target(with_world(|w| w.fs.readlink(&p)), buf, len);
+        }
+    }
+    match real!("readlink", unsafe extern "C" fn(*const c_char, *mut c_char, size_t) -> ssize_t) {
+        Some(f) => f(path, buf, len),
+        None => {
+            set_errno(libc::ENOSYS);
+            -1
+        }
+    }
+}
+
+#[no_mangle]
+pub unsafe extern "C" fn readlinkat(dirfd: c_int, path: *const c_char, buf: *mut c_char, len: size_t) -> ssize_t {
+    if in_sim() {
+        if let Some(p) = sim_path(path).or_else(|| sim_path_at(dirfd, path)) {
+            return copy_link_target(with_world(|w| w.fs.readlink(&p)), buf, len);
+        }
+        if fake(dirfd) {
+            return unmodelled("readlinkat(relative to simulated dirfd)") as ssize_t;
+        }
+    }
+    match real!("readlinkat", unsafe extern "C" fn(c_int, *const c_char, *mut c_char, size_t) -> ssize_t) {
+        Some(f) => f(dirfd, path, buf, len),
+        None => {
+            set_errno(libc::ENOSYS);
+            -1
+        }
+    }
+}
+
+/// realpath(3) resolves links inside libc with calls that cannot be interposed: answer for /simfs here.
+#[no_mangle]
+pub unsafe extern "C" fn realpath(path: *const c_char, resolved: *mut c_char) -> *mut c_char {
+    if in_sim() {
+        if let Some(p) = sim_path(path) {
+            return match with_world(|w| w.fs.realpath(&p)) {
+                Ok(r) => {
+                    let bytes = r.into_bytes();
+                    let out = if resolved.is_null() { libc::malloc(bytes.len() + 1) as *mut c_char } else { resolved };
+                    if out.is_null() {
+                        set_errno(libc::ENOMEM);
+                        return std::ptr::null_mut();
+                    }
+                    std::ptr::copy_nonoverlapping(bytes.as_ptr(), out as *mut u8, bytes.len());
+                    *out.add(bytes.len()) = 0;
+                    out
+                }
+                Err(e) => {
+                    set_errno(e);
+                    std::ptr::null_mut()
+                }
+            };
+        }
+    }
+    match real!("realpath", unsafe extern "C" fn(*const c_char, *mut c_char) -> *mut c_char) {
+        Some(f) => f(path, resolved),
+        None => {
+            set_errno(libc::ENOSYS);
+            std::ptr::null_mut()
+        }
+    }
+}
+
 #[no_mangle]
 pub unsafe extern "C" fn chmod(path: *const c_char, mode: mode_t) -> c_int {
     if in_sim() {
@@ -1088,7 +1223,10 @@ unsafe fn open_simdir(p: &str) -> *mut libc::DIR {
             return std::ptr::null_mut();
         }
     };
-    let entries = with_world(|w| w.fs.disk.children(p));
+    let entries = with_world(|w| {
+        let real = w.fs.path_of_fd(fd).unwrap_or_else(|_| p.to_string());
+        w.fs.disk.children(&real)
+    });
     let b = Box::new(SimDir { magic: SIMDIR_MAGIC, fd, pos: 0, entries, ent: std::mem::zeroed() });
     let ptr = Box::into_raw(b);
     if let Ok(mut v) = SIMDIRS.lock() {
@@ -1153,7 +1291,14 @@ unsafe fn simdir_next(sd: *mut SimDir) -> *mut libc::dirent64 {
     d.ent.d_ino = ino;
     d.ent.d_off = d.pos as i64;
     d.ent.d_reclen = std::mem::size_of::<libc::dirent64>() as u16;
-    d.ent.d_type = if is_dir { libc::DT_DIR } else { libc::DT_REG };
+    let is_link = with_world(|w| w.fs.disk.inodes.get(&ino).map(|i| i.link.is_some()).unwrap_or(false));
+    d.ent.d_type = if is_dir {
+        libc::DT_DIR
+    } else if is_link {
+        libc::DT_LNK
+    } else {
+        libc::DT_REG
+    };
     let bytes = name.as_bytes();
     let n = bytes.len().min(d.ent.d_name.len() - 1);
     for (i, b) in bytes[..n].iter().enumerate() {
